@@ -59,6 +59,7 @@ class Runtime:
         self.f_pytruth = F("pytruth", PyV, Bool)
         self.f_cls = F("cls_of", XVal, Int)
         self.f_pyz = F("pythonize", XVal, PyV)
+        self.f_xvalue = F("x690_value", XVal, PyV)
         self.f_oidstr = F("oid_str", OID, PStr)
         self.f_str_ascii = F("str_encode_ascii", PStr, Bytes)
         self.f_bcat = F("bcat", Bytes, Bytes, Bytes)
